@@ -54,6 +54,17 @@ object C37Main {
       case "hwe" =>
         val n = args(1).toInt
         for (r <- 0 to n; h <- 0 to n; v <- 0 to n) hwe(out, r, h, v)
+      case "standins" =>
+        // harness self-test: the stand-in distributions themselves, independent of any engine code
+        import org.apache.commons.math3.distribution.HypergeometricDistribution
+        for ((n, m, s) <- Seq((10, 3, 4), (40, 20, 20), (80, 33, 51), (7, 7, 3), (5, 1, 5))) {
+          val h = new HypergeometricDistribution(null, n, m, s)
+          for (k <- -1 to s + 1)
+            out.println("{\"hyper\":[" + n + "," + m + "," + s + "," + k + "],\"v\":[" + js(h.probability(k)) + "," + js(h.logProbability(k)) + "," +
+              js(h.cumulativeProbability(k)) + "," + js(h.upperCumulativeProbability(k)) + "]}")
+        }
+        for (df <- Seq(1.0, 2.0, 5.0); x <- Seq(0.0, 1e-9, 0.01, 0.5, 1.0, 1.4999, 1.5, 2.0, 3.84, 10.0, 27.638186780356982, 80.0, 400.0))
+          out.println("{\"chisq\":[" + js(x) + "," + js(df) + "],\"v\":[" + js(ChiSquare.cumulative(x, df, false, false)) + "," + js(ChiSquare.cumulative(x, df, true, false)) + "]}")
       case "cases" =>
         val in = new java.io.BufferedReader(new java.io.InputStreamReader(System.in, "UTF-8"))
         var line = in.readLine()
